@@ -72,6 +72,8 @@ var c08Families = []c08Family{
 		}, false, false},
 	{"state inherited from the original (immutable and nested inputs set once)", "cfg.hits[inp % 3] += inp\nrows[0].id += 1\nrows[1][0] += inp\nout := [cfg.hits, rows, cfg.name]\n",
 		func(id int64) map[string]interface{} { return map[string]interface{}{"inp": id} }, false, false},
+	{"state inherited from the original (error values with mutable payloads)", "errs[0].value.n += inp\nerrs[1].value[0] += 1\nbox.e.value.k = inp\nout := [errs, box, is_error(errs[0])]\n",
+		func(id int64) map[string]interface{} { return map[string]interface{}{"inp": id} }, false, false},
 	{"format and string building", "out := format(\"%d-%s-%v-%05d-%x\", inp, \"x\", [inp, \"s\"], inp, inp)\no2 := \"v=\" + inp + '-' + 1.5\n",
 		func(id int64) map[string]interface{} { return map[string]interface{}{"inp": id} }, false, false},
 	{"compare and copy shared constants", "k := [1, 2, [3, \"four\"], {a: 5.5}]\nout := [copy(k) == k, \"const\" == \"const\", k[2][1][inp % 4], immutable(k)[3].a + inp, 'c' + 1]\nfz := freeze(k)\n",
@@ -85,11 +87,18 @@ func c08Compile(f c08Family) (*tengo.Compiled, error) {
 	for n, v := range f.inputs(0) {
 		_ = s.Add(n, v)
 	}
-	if strings.HasPrefix(f.name, "state inherited") {
+	if strings.HasPrefix(f.name, "state inherited from the original (immutable") {
 		// set once on the original; every clone must get its own deep copy
 		_ = s.Add("cfg", &tengo.ImmutableMap{Value: map[string]tengo.Object{"name": &tengo.String{Value: "cfg"},
 			"hits": &tengo.Array{Value: []tengo.Object{&tengo.Int{Value: 0}, &tengo.Int{Value: 0}, &tengo.Int{Value: 0}}}}})
 		_ = s.Add("rows", []interface{}{map[string]interface{}{"id": 1}, []interface{}{10, 20}})
+	}
+	if strings.HasPrefix(f.name, "state inherited from the original (error") {
+		mk := func(v tengo.Object) *tengo.Error { return &tengo.Error{Value: v} }
+		_ = s.Add("errs", &tengo.Array{Value: []tengo.Object{
+			mk(&tengo.Map{Value: map[string]tengo.Object{"n": &tengo.Int{Value: 0}}}),
+			mk(&tengo.Array{Value: []tengo.Object{&tengo.Int{Value: 0}}})}})
+		_ = s.Add("box", &tengo.Map{Value: map[string]tengo.Object{"e": mk(&tengo.Map{Value: map[string]tengo.Object{"k": &tengo.Int{Value: 0}}})}})
 	}
 	mm := stdModules()
 	mm.AddSourceModule("lib", []byte(c08Lib))
